@@ -364,7 +364,19 @@ impl<'c, 'd> Parser<'c, 'd> {
                     }
                     _ => (),
                 }
-                operands.append(&mut self.parse_operand(loperand.kind)?);
+                match loperand.quantifier {
+                    GOpCount::One => operands.append(&mut self.parse_operand(loperand.kind)?),
+                    GOpCount::ZeroOrOne => {
+                        if !self.decoder.limit_reached() {
+                            operands.append(&mut self.parse_operand(loperand.kind)?)
+                        }
+                    }
+                    GOpCount::ZeroOrMore => {
+                        while !self.decoder.limit_reached() {
+                            operands.append(&mut self.parse_operand(loperand.kind)?)
+                        }
+                    }
+                }
             }
             Ok(operands)
         } else {
